@@ -67,7 +67,8 @@ def job_for(stage, base, ref, d, n_proc=3):
     if stage == 'querymarkers':
         return {'refm': str(base / 'refm.h5'), 'genes': ref['genes'], 'tmp': t, 'n_proc': n_proc, 'behemoth': 2}, None
     if stage == 'transpose':
-        return {'src': str(base / 'sparse.h5'), 'out': str(d / 'out' / 'tr.h5'), 'tmp': t, 'n_proc': n_proc,
+        # more processors than slices: every worker is still in the list when dispatch ends
+        return {'src': str(base / 'sparse.h5'), 'out': str(d / 'out' / 'tr.h5'), 'tmp': t, 'n_proc': n_proc + 1,
                 'indices_max': 9}, d / 'out' / 'tr.h5'
     raise ValueError(stage)
 
@@ -130,9 +131,11 @@ def run(ctx, quick):
     for st, ids in workers.items():
         combos = [(w, pt, m) for w in ids for pt in POINTS for m in MODES]
         if quick:
-            # one plan per stage and mode in quick (rotating over points/workers by seed)
+            # every (crash point, failure mode) of each stage in quick, the worker rotating with the seed;
+            # the last worker (still in the list when dispatch ends) gets the faults after its work
             k = ctx.seed
-            combos = [(ids[(k + i) % len(ids)], POINTS[(k + i) % 3], MODES[i]) for i in range(3)]
+            combos = [(ids[-1] if pt == 'after' else ids[(k + i) % len(ids)], pt, m)
+                      for i, (pt, m) in enumerate((pt, m) for pt in POINTS for m in MODES)]
         plans += [(st, w, pt, m) for w, pt, m in combos]
     jobs, meta = [], []
     for st, w, pt, m in plans:
